@@ -9,6 +9,10 @@ NOTE = ("Trusted: Lean 4.33 kernel; axioms propext, Classical.choice, Quot.sound
         "harness/translate.py; the correspondence check (differential testing, generator quality bounds what it sees). ")
 
 CHECKS = {
+    "C08": dict(
+        text="The residual, Boukamp-weight and pseudo-chi-squared kernels of analysis/utility.py are re-translated from /repo on every run and it is proved for ALL complex data/model values with Z_exp != 0 and any number of points that the pseudo chi-squared equals the sum of the squared moduli of the relative residuals (chisqrTerm_eq_normSq_residual, chisqr_eq_sum_normSq_residuals), and that the residual kernel is (Z_exp - Z_fit)/|Z_exp| (residual_formula). The translator is cross-checked on every run. PARTIAL: the assembly of each result object (frequencies = unmasked frequencies, which impedances/residuals/chi-squared go into which field, attached circuit), non-interference of masked points (garbage on masked points -> bit-identical results) and untouched inputs are decided by the direct oracle on every entry point, not by a model.",
+        ref="§4 C08", tech=TECH_T,
+        note=NOTE + "Division by |Z_exp| = 0 (inf/nan in numpy) is excluded by hypothesis; numerical code inside the analyses is runtime."),
     "C20": dict(
         text="Proved on the model of both phases of to_circuitikz (layout in exact quarter/whole units, one command per dictionary entry): for every circuit whose parallel connections have at least two branches - everything parse_cdc and the builder return - the source is produced, the start_y == end_y error branch is unreachable at any depth/width (tikz_total), and whenever the export succeeds the number of component commands equals the number of elements, containers counted once (component_count); a single-branch parallel does fail (single_branch_parallel_fails, known finding F13). Tie: every drawing command and coordinate of the real to_circuitikz compared with the model for exhaustive small topologies (incl. shapes only object construction can produce) and random larger circuits. PARTIAL: component names, begin/end balance, and the existence of to_sympy / to_latex / to_drawing and their variable sets are checked on the implementation only.",
         ref="§4 C20", tech=TECH_H,
